@@ -154,6 +154,24 @@ def run(ctx):
                     cuts.append((pos, cw[:1]))
         return wires, ops, cuts
 
+    def gen_revisit(rng):
+        """Designed family: a wire leaves the main fragment through a cut and re-enters it through a later cut ("out and back") after another
+        wire of the same fragment was already cut, so one fragment holds two MeasureNodes and a later PrepareNode (3 cuts, integer labels)."""
+        nw = int(rng.integers(3, 5))
+        wires = num.wire_labels(rng, nw, mode=["range", "range", "noncontig", "perm"][int(rng.integers(4))])
+        if not all(isinstance(w, (int, np.integer)) for w in wires):
+            wires = list(range(nw))
+        hub, a, b = [wires[int(i)] for i in rng.permutation(nw)[:3]]
+        rest = [w for w in wires if w not in (hub, a, b)]
+        rot = lambda w: [qp.RX, qp.RY, qp.RZ][int(rng.integers(3))](float(rng.uniform(0.3, 2.8)), wires=w)  # noqa: E731
+        ent = lambda u, v: [qp.CNOT, qp.CZ][int(rng.integers(2))](wires=[u, v])  # noqa: E731
+        ops = [rot(hub), rot(a), ent(hub, a), rot(b), ent(hub, b), qp.WireCut(wires=a)]
+        ops += [rot(a)] + ([ent(a, rest[0]), rot(rest[0])] if rest and rng.random() < 0.7 else [])
+        ops += [qp.WireCut(wires=b), rot(b)] + ([rot(b)] if rng.random() < 0.4 else []) + [qp.WireCut(wires=b), ent(hub, b) if rng.random() < 0.5 else ent(b, hub)]
+        if rng.random() < 0.5:
+            ops.append(rot(hub))
+        return wires, ops
+
     def reference(ops, wires, M):
         st, frac = bridge.tape_state([o for o in ops if o.name != "WireCut"], wires)
         return float(np.real(np.vdot(st, M @ st))), frac
@@ -168,7 +186,12 @@ def run(ctx):
         max_cuts = 2 if ctx.quick else 3
         n_cuts = 0 if auto else int(rng.integers(1, max_cuts + 1))
         wires, ops, cuts = gen_circuit(rng, nw, int(rng.integers(2, 11)), n_cuts, manual=not auto)
-        if n_cut_wires(ops) > max_cuts + 1:
+        revisit = (not auto) and rng.random() < 0.2
+        if revisit:
+            wires, ops = gen_revisit(rng)
+            nw = len(wires)
+            ctx.count("cut.revisit_cases")
+        if n_cut_wires(ops) > max(3, max_cuts + 1):
             return
         ob, odesc, M = gen_obs(rng, wires)
         # the automatic cutter may place a dozen cuts (4^cuts contraction): its cases go through the tape entry where the number of fragment
